@@ -71,6 +71,35 @@ func runC12(rc *RC) {
 				got[k] = got[k][:i] // the model predicts the id list only
 			}
 		}
+		// the features a tag search hands out must carry the same tags as
+		// the same features looked up by id (which are compared with the map
+		// below): the model predicts ids only, this ties the content to them
+		for _, q := range obsQueries() {
+			if !isTagQuery(q) {
+				continue
+			}
+			bad := safe(func() string {
+				fs := w.FindFeatures(q)
+				for n := 0; fs.Next() && n < 500; n++ {
+					f := fs.Feature()
+					if f == nil {
+						continue
+					}
+					byID := w.FindFeatureByID(fs.FeatureID())
+					if byID == nil {
+						return fs.FeatureID().String() + " is found by search but not by id"
+					}
+					if a, b := tagsString(f), tagsString(byID); a != b {
+						return fs.FeatureID().String() + " has tags " + a + " as a search result and " + b + " when looked up by id"
+					}
+				}
+				return ""
+			})
+			if bad != "" {
+				rc.Fail(name+"/differs-from-map:find-content", "after %s, searching %s: %s", what, q, bad)
+				return false
+			}
+		}
 		want := modelObs(g, ids)
 		if d := want.Diff(got, 1); len(d) > 0 {
 			cls := name + "/differs-from-map:" + section(d[0])
